@@ -387,6 +387,35 @@ class OsProxy(object):
         return getattr(os, n)
 
 
+class ShutilProxy(object):
+    """the shutil module, should the code under test use it to move a file into place: on one file system a move is a rename (atomic);
+    when source and destination are on different file systems (the environment's choice: the system's temporary directory is often a
+    tmpfs) it is a COPY into the destination -- open for writing (truncating what is there), write, close -- followed by removing the source"""
+
+    def __init__(self, fs, tmp_elsewhere):
+        self._fs, self._elsewhere = fs, tmp_elsewhere
+
+    def move(self, src, dst, *a, **k):
+        import tempfile as _tf
+        cross = self._elsewhere and os.path.dirname(os.path.abspath(src)) == os.path.abspath(_tf.gettempdir())
+        if not cross:
+            if self._fs.boundary("rename (move on one file system)"):
+                self._fs.die()
+            os.replace(src, dst)
+            return dst
+        data = open(src, "rb").read()
+        with self._fs.open(dst, "wb") as f:
+            f.write(data)
+        if self._fs.boundary("unlink the source of the move"):
+            self._fs.die()
+        os.unlink(src)
+        return dst
+
+    def __getattr__(self, n):
+        import shutil as _sh
+        return getattr(_sh, n)
+
+
 def h_crash(ctx):
     from yowsup.config.manager import ConfigManager
     from yowsup.config.v1.config import Config
@@ -405,11 +434,17 @@ def h_crash(ctx):
             cm.save(prof, old)
         crash_at = ctx.choice("crash_at", [0, 1, 2, 3, 4, 5, "none"])
         frac = ctx.choice("persisted_prefix", [0.0, 0.01, 0.5, 0.99, 1.0])
+        # environment: the system's temporary directory may be on another file system than the configuration directory
+        # (every choice is made BEFORE the module attributes are replaced: nothing between the replacement and its undoing may raise)
+        tmp_elsewhere = ctx.flag("temporary_directory_on_another_file_system")
         fs = CrashFS(None if crash_at == "none" else crash_at, frac)
         tools.open = fs.open
         manager.open = fs.open
         real_os = tools.os
         tools.os = OsProxy(fs)
+        real_shutil = getattr(tools, "shutil", None)
+        if real_shutil is not None:
+            tools.shutil = ShutilProxy(fs, tmp_elsewhere)
         crashed = False
         try:
             cm.save(prof, new)
@@ -419,6 +454,8 @@ def h_crash(ctx):
             del tools.open
             del manager.open
             tools.os = real_os
+            if real_shutil is not None:
+                tools.shutil = real_shutil
         ctx.note("boundaries %s crashed=%s" % (fs.log, crashed))
         try:
             loaded = ConfigManager().load(prof)
